@@ -156,6 +156,7 @@ def describe_terminal(term):
     if term[0] == "DEADLOCK":
         return {"deadlock": common.jsonable(term[1])}
     return {"outcomes": {n: [o[0] for o in os_] for n, os_ in term[1]},
+            "values": {n: [o[1] if len(o) > 1 and isinstance(o[1], str) else None for o in os_] for n, os_ in term[1]},
             "api": [list(x[:-1]) + [x[-1][0]] for x in term[2]],
             "objects": [c[:6] for c, _ in term[3][0]],
             "pid_refs": [(k, v[:6]) for k, v in term[3][2]],
